@@ -23,6 +23,11 @@ class NullableOperationsImpl(UniformShapeOperations):
     def fill_null(self, x: Array, value) -> Array:
         value = ndx.asarray(value)
         if value.dtype != x.values.dtype:
+            string_dtypes = (ndx.utf8, ndx.nutf8)
+            if (value.dtype in string_dtypes) != (x.values.dtype in string_dtypes):
+                raise TypeError(
+                    f"Cannot fill null values of `{x.dtype}` with a value of data type `{value.dtype}`"
+                )
             value = value.astype(x.values.dtype)
         return ndx.where(x.null, value, x.values)
 
